@@ -346,6 +346,8 @@ class KcWorld(World):
             o['_cert'] = self.certs_created[o['cert'] % len(self.certs_created)] if self.certs_created else None
         if 'issuer' in o:
             o['_issuer'] = self.keys_created[o['issuer'] % len(self.keys_created)] if self.keys_created else None
+        if 'named_for' in o:
+            o['_named_for'] = self.keys_created[o['named_for'] % len(self.keys_created)] if self.keys_created else None
         return o
 
     def find_key(self, m, kname):
@@ -652,8 +654,13 @@ class Runner:
                 ci, ckn, ckr = _find_cert(w.model, o['_cert'])
                 if ckr is not None:
                     return {'cert': o['_cert'], 'cert_data': ckr['certs'][o['_cert']]}
-            i, rec = _find_key(w.model, o['_key'])
-            bits = rec['keys'][o['_key']]['bits'] if rec else b'\x00'
+            subject = o['_key']
+            if o.get('_named_for') and _find_key(w.model, o['_named_for'])[1] is not None:
+                # a certificate OF ANOTHER KEY (its name and content say so) filed under this key: import_cert does not
+                # tie the certificate name to the key it is imported under
+                subject = o['_named_for']
+            i, rec = _find_key(w.model, subject)
+            bits = rec['keys'][subject]['bits'] if rec else b'\x00'
             issuer = o['_issuer']
             try:
                 signer = w.tpm.get_signer(Name.from_bytes(issuer))
@@ -661,7 +668,7 @@ class Runner:
                 from ndn.security import DigestSha256Signer
                 signer = DigestSha256Signer()
             start = _dt.datetime.fromtimestamp(w.wall.now_us() / 1e6, _dt.UTC)
-            cname, cdata = derive_cert(Name.from_bytes(o['_key']), 'imp' + str(o.get('n', 0)), bits, signer, start, 3600)
+            cname, cdata = derive_cert(Name.from_bytes(subject), 'imp' + str(o.get('n', 0)), bits, signer, start, 3600)
             return {'cert': nb(cname), 'cert_data': bytes(cdata)}
         finally:
             w.st.in_op = st_in
@@ -1033,6 +1040,17 @@ class Runner:
                 if kr is not None:
                     args['cert'] = Name.from_bytes(cn) if shape == 'cert' else kc[Name.from_bytes(i)][Name.from_bytes(kn)][Name.from_bytes(cn)]
                     exp_key, exp_cert = kn, cn
+                    owner = nb(Name.from_bytes(cn)[:-2])
+                    if owner != kn:
+                        # the certificate is filed under another key than the one it certifies: the key it NAMES signs
+                        # (a signature made with the key it is filed under would not verify under this certificate)
+                        orec = _find_key(m, owner)[1]
+                        if orec is None or owner not in m.priv:
+                            expect_error = True
+                            exp_key = exp_cert = None
+                        else:
+                            exp_key = owner
+                        w.stats['probe.signer_for_misfiled_certificate'] += 1
             elif shape == 'digest':
                 args['digest_sha256'] = True
             elif shape == 'none':
@@ -1260,8 +1278,14 @@ def generate(rng, seed, tier='quick'):
             if rng.random() < 0.25:
                 op['foreign_cert'] = True
                 op['cert'] = rng.randint(0, 9)
+            elif rng.random() < 0.2:
+                op['named_for'] = rng.randint(0, 7)
             ops.append(op)
             ncerts += 1
+            if 'named_for' in op and rng.random() < 0.7:
+                # ... and somebody signs with that very certificate (the one created last)
+                ops.append({'op': 'get_signer', 'shape': rng.choice(['cert', 'cert_obj', 'cert_obj']), 'id': rng.choice(ids),
+                            'key': op['key'], 'cert': -1})
         elif x < 0.50:
             ops.append({'op': 'set_default_identity', 'id': rng.choice(ids)})
         elif x < 0.56:
